@@ -222,6 +222,14 @@ def make_files(rng):
         " ".join(map(str, c)) + " 0\n" for c in cl)
     entries["f.cnf"] = {"kind": "file", "data": text}
     index["cnf"].append("f.cnf")
+    # file names are bytes: one that is not UTF-8 reaches python as a
+    # string with a lone surrogate (os.fsdecode)
+    odd = "f\udce4.cnf"
+    entries[odd] = {"kind": "file", "data": text}
+    index["cnf"].append(odd)
+    godd = "gr\udce4ph.kthlist"
+    entries[godd] = dict(entries["s.kthlist"])
+    index["simple"].append((godd, "kthlist"))
     entries["adir"] = {"kind": "dir"}
     entries["adir.kthlist"] = {"kind": "dir"}
     entries["ro.cnf"] = {"kind": "unwritable", "data": ""}
